@@ -11,7 +11,7 @@ NEG1 = "bf800000"
 
 def theorems():
     out = []
-    for f in ("C07.theorems", "C07Opt.theorems", "C07Prof.theorems", "C07Soft.theorems", "C07SoftProf.theorems"):
+    for f in ("C07.theorems", "C07Opt.theorems", "C07Prof.theorems", "C07Soft.theorems", "C07SoftProf.theorems", "C07SoftGroups.theorems"):
         p = os.path.join(C.LEAN, "KalignModel", "Props", f)
         if os.path.exists(p):
             out += [l.strip() for l in open(p) if l.strip() and not l.startswith("#")]
